@@ -938,4 +938,83 @@ theorem fitBindingTimes_defaults (nComp : Nat) (excl : Bool) (tracks : List Trac
         · rfl
         · split <;> rfl
 
+/-! ## strengthening round H: the extraction function handed any list of groups -/
+
+theorem uniqFirst_const_length (k : Nat) : ∀ l : List Nat, (∀ x ∈ l, x = k) → (uniqFirst l).length ≤ 1 := by
+  intro l h
+  cases l with
+  | nil => simp [uniqFirst]
+  | cons x xs =>
+    have hx : x = k := h x (by simp)
+    have : (uniqFirst xs).filter (· ≠ x) = [] := by
+      rw [List.filter_eq_nil_iff]
+      intro a ha
+      have : a = k := h a (List.mem_cons_of_mem _ ((mem_uniqFirst a xs).1 ha))
+      simp [this, hx]
+    show (x :: (uniqFirst xs).filter (· ≠ x)).length ≤ 1
+    rw [this]; simp
+
+/-- a group of the per-kymograph split lies on one kymograph: the refusal never fires behind `fit_binding_times` -/
+theorem tracksByKymo_not_mixed (tracks G : List Track) (hG : G ∈ tracksByKymo tracks) : mixed G = false := by
+  obtain ⟨k, _, _, hGk, _⟩ := mem_tracksByKymo tracks G hG
+  have : (groupKymos G).length ≤ 1 := by
+    unfold groupKymos
+    refine uniqFirst_const_length k _ ?_
+    intro x hx
+    obtain ⟨t, ht, rfl⟩ := List.mem_map.1 hx
+    rw [hGk] at ht
+    simpa using (List.mem_filter.1 ht).2
+  simp only [mixed, decide_eq_false_iff_not]
+  omega
+
+theorem firstErrorGroups_eq_of_not_mixed (excl om : Bool) :
+    ∀ gs : List (List Track), (∀ G ∈ gs, mixed G = false) → firstErrorGroups excl om gs = firstError excl om gs := by
+  intro gs
+  induction gs with
+  | nil => intro _; rfl
+  | cons g gs ih =>
+    intro h
+    have hg : mixed g = false := h g (by simp)
+    simp only [firstErrorGroups, firstError, hg, Bool.false_eq_true, if_false]
+    rw [ih (fun G hG => h G (List.mem_cons_of_mem _ hG))]
+
+/-- handed the per-kymograph split, the general function is the extraction `fit_binding_times` relies on -/
+theorem extractGroups_tracksByKymo (excl om : Bool) (tracks : List Track) :
+    extractGroups excl om (tracksByKymo tracks)
+      = match firstError excl om (tracksByKymo tracks) with
+        | some e => .error e
+        | none => match extract excl om tracks with
+          | none => .error "RuntimeError"
+          | some r => .ok r := by
+  unfold extractGroups extract
+  rw [firstErrorGroups_eq_of_not_mixed excl om _ (tracksByKymo_not_mixed tracks)]
+  cases firstError excl om (tracksByKymo tracks) with
+  | some e => rfl
+  | none =>
+    cases allSome ((tracksByKymo tracks).map (extractGroup excl om)) <;> rfl
+
+/-- a group over two or more kymographs is refused, whatever else the list holds before it would be reached or not:
+    the answer is never a table of rows -/
+theorem extractGroups_refuses_mixed (excl om : Bool) (groups : List (List Track))
+    (h : ∃ G ∈ groups, mixed G = true) : ∃ e, extractGroups excl om groups = .error e := by
+  have : ∃ e, firstErrorGroups excl om groups = some e := by
+    induction groups with
+    | nil => obtain ⟨G, hG, _⟩ := h; simp at hG
+    | cons g gs ih =>
+      simp only [firstErrorGroups]
+      split
+      · exact ⟨_, rfl⟩
+      · split
+        · exact ⟨_, rfl⟩
+        · split
+          · exact ⟨_, rfl⟩
+          · rename_i hm _ _
+            apply ih
+            obtain ⟨G, hG, hmix⟩ := h
+            rcases List.mem_cons.1 hG with rfl | hG
+            · exact absurd hmix hm
+            · exact ⟨G, hG, hmix⟩
+  obtain ⟨e, he⟩ := this
+  exact ⟨e, by unfold extractGroups; rw [he]⟩
+
 end Verif.C15
